@@ -516,7 +516,7 @@ func (x *c15Run) staleness() {
 	if flagdiff {
 		x.e.St.Probes["view_has_stale_flags"]++
 	}
-	if len(live) > 0 && uint32(len(live)) > 0 {
+	{
 		for u := range live {
 			found := false
 			for _, rw := range x.view.Rows {
